@@ -470,7 +470,7 @@ func concMix(req concReq) int {
 	makeCfgFiles()
 	defer removeCfgFiles()
 	// sequential table (twice: an operation that is not deterministic alone is excluded and reported)
-	type delta struct{ ops, errs, bytes, mn, mx, pg, pp int64 }
+	type delta struct{ ops, errs, bytes, mn, mx, pg, pp, ebt int64 }
 	table := map[string][]string{}
 	deltas := map[string][]delta{}
 	var nondet []string
@@ -482,7 +482,11 @@ func concMix(req concReq) int {
 			resetAll()
 			r1 := runOp(op, in, 0)
 			s := metrics.GetStats()
-			deltas[op][i] = delta{s.TokenizeOperations, s.TokenizeErrors, s.TotalBytesProcessed, s.MinQuerySize, s.MaxQuerySize, s.PoolGets, s.PoolPuts}
+			var e0 int64
+			for _, v := range s.ErrorsByType {
+				e0 += v
+			}
+			deltas[op][i] = delta{s.TokenizeOperations, s.TokenizeErrors, s.TotalBytesProcessed, s.MinQuerySize, s.MaxQuerySize, s.PoolGets, s.PoolPuts, e0}
 			r2 := runOp(op, in, 0)
 			table[op][i] = r1
 			if r1 != r2 {
@@ -501,7 +505,7 @@ func concMix(req concReq) int {
 	var mism []mixMismatch
 	nmis := 0
 	var total int64
-	var wantOps, wantErrs, wantBytes, wantPG, wantPP int64
+	var wantOps, wantErrs, wantBytes, wantPG, wantPP, wantEBT int64
 	wantMin, wantMax := int64(-1), int64(0)
 	var wg sync.WaitGroup
 	start := make(chan struct{})
@@ -512,7 +516,7 @@ func concMix(req concReq) int {
 		go func(g int) {
 			defer wg.Done()
 			rg := &rng{s: req.Seed*1000003 + uint64(g)*7919 + 1}
-			var lo, le, lb, lpg, lpp int64
+			var lo, le, lb, lpg, lpp, lebt int64
 			lmin, lmax := int64(-1), int64(0)
 			<-start
 			for j := 0; j < k; j++ {
@@ -526,6 +530,7 @@ func concMix(req concReq) int {
 				lb += d.bytes
 				lpg += d.pg
 				lpp += d.pp
+				lebt += d.ebt
 				if d.ops > 0 {
 					if lmin == -1 || d.mn < lmin {
 						lmin = d.mn
@@ -550,6 +555,7 @@ func concMix(req concReq) int {
 			wantBytes += lb
 			wantPG += lpg
 			wantPP += lpp
+			wantEBT += lebt
 			if lmin != -1 && (wantMin == -1 || lmin < wantMin) {
 				wantMin = lmin
 			}
@@ -571,7 +577,7 @@ func concMix(req concReq) int {
 		"totalQueryBytes": s.TotalBytesProcessed, "minQuerySize": s.MinQuerySize, "maxQuerySize": s.MaxQuerySize,
 		"errorsByType": ebt, "poolGets": s.PoolGets, "poolPuts": s.PoolPuts}
 	want := map[string]int64{"tokenizeOperations": wantOps, "tokenizeErrors": wantErrs, "totalQueryBytes": wantBytes,
-		"minQuerySize": wantMin, "maxQuerySize": wantMax, "errorsByType": wantErrs, "poolGets": wantPG, "poolPuts": wantPP}
+		"minQuerySize": wantMin, "maxQuerySize": wantMax, "errorsByType": wantEBT, "poolGets": wantPG, "poolPuts": wantPP}
 	var badTotals []string
 	for kf, w := range want {
 		if got[kf] != w {
